@@ -104,7 +104,7 @@ def run(tier, seed):
     chk = Check("C09", tier, seed, "other")
     ok, sites, failing = frame.rule_inplace()
     chk.add_rule("C09.S.inplace", ok, sites, failing)
-    n = 12 if tier == "quick" else 120
+    n = 12 if tier == "quick" else 400
     res = [x for r in harness.pmap(_work, [(seed, i) for i in range(-1, n)]) for x in r]
     seen = set()
     fails = [r for r in res if r[0] != "ok"]
